@@ -167,6 +167,15 @@ def order_rules(ctx):
             ok = len(g) == 1 and any(n.get("k") == "mcall" and n["m"] == "insert" and sir.expr_str(n["recv"]).endswith("." + m) for n in sir.walk(g[0].body)) \
                 and not any(n.get("k") == "mcall" and n["m"] in ("entry", "or_insert", "or_insert_with", "contains_key") for n in sir.walk(g[0].body))
             obs.append(ob("C20.order/add/%s" % name, ok, "group.rs", "%s replaces an existing entry unconditionally (last add wins regardless of what was added before): %s" % (name, ok)))
+            # distinct paths stay distinct entries: the path is used as given (two spellings that some normalisation would merge
+            # must not overwrite each other depending on the order of insertion)
+            if len(g) == 1:
+                pn = [x for x in g[0].param_names() if x and x != "self"]
+                rebound = [l_ for l_ in sir.walk(g[0].body) if l_.get("k") == "local" and pn and any(b == pn[0] for b, _ in sir.pat_bindings(l_["pat"]))]
+                transformed = [x for x in sir.walk(g[0].body) if x.get("k") == "call" and re.search(r"path::(normalize|resolve)$", sir.call_path(x) or "")]
+                okk = not rebound and not transformed
+                obs.append(ob("C20.order/add/%s/key-verbatim" % name, okk, ctx.where(g[0]), "the path is the key as given: %s" % okk if okk else "the path is rewritten before it is used as the key (%s): two different inputs can collide, and the survivor depends on the order of insertion" % ("rebound" if rebound else "normalised"),
+                              witness=None if okk else "add_tmpl('widgets/badge') and add_tmpl('widgets/./badge') in either order"))
     return obs
 
 
